@@ -365,7 +365,9 @@ def run_discovery_case(args):
     argv = ["--select", "cbo" if cmd == "analyze" else "complexity"]
     ex = case["explicit"]
     if ex == "file":
-        ep = os.path.join(d, "e", "custom.toml")
+        # the explicit file is named by the user: any name, not only *.toml
+        names = ["custom.toml", "pyscn.conf", ".pyscnrc", "settings", "ci.cfg"]
+        ep = os.path.join(d, "e", names[(sum(len(x) for x in case["target"]) + (1 if cmd == "check" else 0) + (2 if case["cwd"] else 0)) % len(names)])
         os.makedirs(os.path.dirname(ep), exist_ok=True)
         v = disc_value(cmd, 40)
         with open(ep, "w") as f:
